@@ -62,6 +62,20 @@ CHECKS["C10"] = dict(
     technique="TLC totality check of the spec machine on malformed terms + replay of every enumerated case into the real "
               "machine under catch_unwind with overflow checks")
 
+CHECKS["C11"] = dict(
+    category="model_checking",
+    text="DeBruijn.tla defines binding by the classical reference semantics (an occurrence refers to the innermost enclosing "
+         "binder with the same unique; the de Bruijn form is the resolution) and transcribes the converter's scope stack; TLC "
+         "checks the transcription against the reference, there-and-back identity and closedness on every named term (2 uniques x "
+         "2 texts, shadowing, duplicate uniques, binders under delay/constr/case, open and closed) and every index term (indices "
+         "0..depth+1) up to a node bound. Every enumerated term is replayed through the real conversions (name -> de Bruijn, "
+         "name -> named de Bruijn, Program::to_debruijn, CodeGenInterner, de Bruijn -> name -> de Bruijn): same resolution, and an "
+         "error iff the spec says the term is open. Random larger terms beyond the bound.",
+    design_ref="DESIGN.md section 6 C11, section 4.2",
+    note="Alpha-equivalence is equality of de Bruijn forms. Evaluation-equivalence follows from structural equality and is not "
+         "re-run. The parser's text interner is not covered.",
+    technique="TLA+ reference semantics of binding + transcribed converter checked by TLC; exhaustive replay into the real converters")
+
 NOT_BUILT = "not built yet (machinery under construction, see DESIGN.md section 10)"
 
 
